@@ -2,13 +2,56 @@
 list of executions."""
 
 WORLDS = {
+    'render': {
+        'pkg': 'zzverif/worlds/render',
+        'rewrite': [('.', 'sync'), ('runtime', 'sync')],
+        'needs_templ': True,
+        'prep_hook': 'render_corpus',
+        'trimpath': False,
+    },
     'sse': {
         'pkg': 'zzverif/worlds/sse',
         'rewrite': [('cmd/templ/generatecmd/sse', 'sync')],
     },
 }
 
+RENDER_REAL = ['templ root package (runtime.go, once.go, flush.go, join.go, scripttemplate.go, handler.go)', 'templ/runtime (Buffer, buffer pool, GeneratedTemplate, WriteString)',
+               'generated code of the combinator corpus, produced at check time by the working tree\'s generator', 'safehtml']
+
 PROPS = {
+    'C10': {
+        'world': 'render',
+        'level': 'fault_enumeration',
+        'builds': {'default': {}},
+        'tiers': {
+            'quick': {'runs': 1500, 'params': {'max_nodes': 30, 'all_offsets_upto': 512}, 'per_run_timeout': 5.0},
+            'thorough': {'runs': 40000, 'params': {'max_nodes': 40, 'all_offsets_upto': 8192}, 'per_run_timeout': 20.0, 'shrink_budget_s': 300},
+        },
+        'rule': 'one run = one sampled component tree (spec) x knobs (buffer size, pool policy, writer kind, sticky/one-shot fault, caller-owned buffer); per run EVERY '
+                'expression / nested-component fault point, pre-cancelled context, cancellation at every fault point, and writer faults (short, zero, short-without-error) '
+                'at every byte offset (all offsets for documents up to the tier limit; else first/last 64, every underlying write boundary +-1 and a stride) are each '
+                'rendered once, followed by a clean render on the same pools; evaluations = faulted renders; distinct = (spec hash, knobs); non-trivial = at least one fault fired',
+        'real': RENDER_REAL,
+        'stubbed': ['io.Writer (fault at byte offset)', 'expression bodies', 'context cancellation', 'sync.Pool (simsync.Pool: LIFO / random / fresh / mixed)'],
+        'assumptions': ['simsync.Pool may return any released object or a new one: a superset of sync.Pool behaviours', 'writers obey nothing beyond io.Writer',
+                        'programs are sampled; fault points are enumerated per program'],
+    },
+    'C11': {
+        'world': 'render',
+        'level': 'fault_enumeration',
+        'builds': {'default': {}},
+        'tiers': {
+            'quick': {'runs': 600, 'params': {'max_chunks': 6}, 'per_run_timeout': 5.0},
+            'thorough': {'runs': 20000, 'params': {'max_chunks': 10}, 'per_run_timeout': 10.0, 'shrink_budget_s': 300},
+        },
+        'rule': 'one run = one sampled component (0..N chunks of sizes 0 B..20 KB, hand-written or generated root, optional generated tree in front) x ALL 150 handler '
+                'configurations (status unset/200/201/404/500 x content type default/2 custom x error handler unset/status+body/body only/nothing/headers+status+body x '
+                'buffered/streaming) x EVERY failure point k in 0..chunks plus success plus cancelled request context, all requests of a configuration served by one handler '
+                'value on one (adversarial) buffer pool; evaluations = requests; distinct = (chunk sizes, root kind, tree, knobs); non-trivial = at least one failing request',
+        'real': ['templ.Handler / ComponentHandler.ServeHTTP, ServeHTTPBuffered, ServeHTTPStreamed', 'templ.GetBuffer/ReleaseBuffer', 'generated combinator corpus', 'templ/runtime buffers'],
+        'stubbed': ['http.ResponseWriter (recorder with commit-time header snapshot)', 'failing components', 'request context', 'sync.Pool (simsync.Pool)'],
+        'assumptions': ['the recorder commits headers at the first WriteHeader/Write like net/http', 'simsync.Pool is a superset of sync.Pool behaviours'],
+    },
     'C19': {
         'world': 'sse',
         'level': 'exploration',
